@@ -114,6 +114,7 @@ extern void (*k_wait_return_hook)(struct kwait_info *wi, int nready);
 extern long (*k_read_hook)(int fd, void *buf, unsigned long n);
 extern long (*k_write_hook)(int fd, const void *buf, unsigned long n);
 extern void (*k_close_hook)(int fd);
+extern long (*k_splice_hook)(int fdin, int fdout, unsigned long len);
 extern void (*k_clock_hook)(void);			/* after every clock reading handed out */
 
 /* ---- harness API ---- */
